@@ -288,6 +288,7 @@ struct C16 : Driver {
     bool dec = rng.below(2), keep = rng.below(2);
     int nop = 1 + (int)rng.below(3);
     c.p["dec"] = dec; c.p["keep"] = keep; c.p["nop"] = nop; c.p["only"] = -1;
+    c.p["double"] = tier ? 200 : 0;     // part of the case (not of the evaluation context), so that a replay sees the same injection list
     RunCfg r;
     r.argv = {"-n", std::to_string(1 + (int)rng.below(3))};
     if (dec) r.argv.push_back("-d");
@@ -341,9 +342,9 @@ struct C16 : Driver {
     std::vector<CK> cks = {{sim::C_READ, {EIO}}, {sim::C_WRITE, {EIO, ENOSPC, EFBIG, EPIPE}}, {sim::C_CLOSE, {EIO, ENOSPC}}, {sim::C_FCHOWN, {EPERM}}, {sim::C_FCHMOD, {EPERM}}, {sim::C_FUTIMENS, {EACCES}}, {sim::C_UNLINK, {EACCES, EIO}}, {sim::C_STDERR, {EPIPE, ENOSPC}}};
     for (auto &ck : cks) for (unsigned k = 0; k < b.calls[ck.call][sim::R_ANY]; k++) for (int e : ck.errs) inj.push_back({1, ck.call, (int64_t)k, e});
     size_t base_inj = inj.size();
-    if (ctx.tier) {   // random double faults: a signal while an error is being handled
+    if (int64_t nd = c.p.count("double") ? c.p.at("double") : 0) {   // random double faults: a signal while an error is being handled
       Rng rng(c.seed ^ 0xD0B1E);
-      for (int i = 0; i < 200 && base_inj; i++) inj.push_back({2, (int64_t)rng.below(base_inj), (int64_t)rng.below(base_inj), 0});
+      for (int i = 0; i < nd && base_inj; i++) inj.push_back({2, (int64_t)rng.below(base_inj), (int64_t)rng.below(base_inj), 0});
     }
     int64_t only = c.p.count("only") ? c.p.at("only") : -1;
     for (size_t i = 0; i < inj.size(); i++) {
@@ -361,13 +362,13 @@ struct C16 : Driver {
       sim::Result a = exec(r, Bytes(), c.files, ctx);
       // which faults fired
       bool any_fired = false, kill9 = false, unlink_fault = false, meta_fault = false, io_fault = false, close_fault = false, stderr_fault = false;
-      int sig_injected = 0, err_fired = 0;
-      for (auto &e : a.sigs) if (e.fired) { any_fired = true; if (e.sig == SIGKILL) kill9 = true; else sig_injected = e.sig; }
-      for (auto &f : a.faults) if (f.fired) { any_fired = true; err_fired = f.err; if (f.call == sim::C_UNLINK) unlink_fault = true; else if (f.call == sim::C_FCHOWN || f.call == sim::C_FCHMOD || f.call == sim::C_FUTIMENS) meta_fault = true; else if (f.call == sim::C_CLOSE) close_fault = true; else if (f.call == sim::C_STDERR) stderr_fault = true; else io_fault = true; }
+      uint64_t sigs_injected = 0; bool epipe_fired = false, efbig_fired = false;     // with a double fault either injected signal may be the one that ends the process
+      for (auto &e : a.sigs) if (e.fired) { any_fired = true; if (e.sig == SIGKILL) kill9 = true; else sigs_injected |= 1ull << e.sig; }
+      for (auto &f : a.faults) if (f.fired) { any_fired = true; if (f.err == EPIPE) epipe_fired = true; if (f.err == EFBIG) efbig_fired = true; if (f.call == sim::C_UNLINK) unlink_fault = true; else if (f.call == sim::C_FCHOWN || f.call == sim::C_FCHMOD || f.call == sim::C_FUTIMENS) meta_fault = true; else if (f.call == sim::C_CLOSE) close_fault = true; else if (f.call == sim::C_STDERR) stderr_fault = true; else io_fault = true; }
       if (!any_fired) { if (ctx.st) ctx.st->inc("oracle.fault_position_not_reached"); continue; }
       Verdict v = kill9 ? Verdict() : global_monitors(a, "run with injected fault");
       if (v.ok() && !kill9) {
-        bool ok_end = a.exited(0) || a.exited(4) || a.exited(1) || (a.kind == sim::X_SIGNAL && (a.code == sig_injected || (err_fired == EPIPE && a.code == SIGPIPE) || (err_fired == EFBIG && a.code == SIGXFSZ)));
+        bool ok_end = a.exited(0) || a.exited(4) || a.exited(1) || (a.kind == sim::X_SIGNAL && (((sigs_injected >> a.code) & 1) || (epipe_fired && a.code == SIGPIPE) || (efbig_fired && a.code == SIGXFSZ)));
         if (!ok_end) v = Verdict::fail("wrong-ending", "ended with " + cls_of_exit(a));
         else if ((io_fault || close_fault) && (a.exited(0) || a.exited(4)) ) {
           // a failed read/write/close must never be reported as success -- except close() of the input after everything was written? no: that is exit 1 too
